@@ -56,10 +56,26 @@ impl<T> ServerTask<T> where T: RequestHandler {
 //@asyncend 0| // when that task is gone - a best-effort notification could be lost while the task is busy and leave a dead entry in the table
 //@asyncend 0| assert(notify_close.delivered(SessionClose(id)) || notify_close.receiver_gone());
 
-// [C20] a decode-level change is applied locally (for new sessions) and forwarded; nothing else changes
-//@fn rodbus/src/tcp/server.rs | ServerTask<T>::apply_command | tags=C20 | ext_body
-//@|    ensures final(self).filter == old(self).filter, final(self).tracker == old(self).tracker, final(self).rx == old(self).rx,
-//@|        command matches ServerCommand::ChangeDecoding(level) ==> final(self).decode == level,
+// [C20] a decode-level change is applied locally (for sessions accepted later) and forwarded to every live session (best effort:
+// delivered unless that session is already gone); nothing else changes.  Shutdown is handled by the caller.
+//@fn rodbus/src/tcp/server.rs | ServerTask<T>::apply_command | tags=C15,C20 | r4
+//@|    requires old(self).wf(),
+//@|    ensures final(self).wf(), final(self).filter == old(self).filter, final(self).rx == old(self).rx, final(self).tx == old(self).tx,
+//@|        final(self).tracker@ == old(self).tracker@, final(self).tracker.id == old(self).tracker.id, final(self).tracker.max_sessions == old(self).tracker.max_sessions,
+//@|        command matches ServerCommand::ChangeDecoding(level) ==> final(self).decode == level
+//@|            && forall|k: u128| #[trigger] old(self).tracker@.contains_key(k) ==> old(self).tracker@[k].delivered(command) || old(self).tracker@[k].receiver_gone(),
+//@|        command is Shutdown ==> final(self).decode == old(self).decode,
+//@loopstart 0| let ghost ks0 = it__0.ks;
+//@loopend 0| crate::shims::btree::lemma_skip_first_key(ks0);
+//@loop 0|            invariant
+//@loop 0|                it__0.cur == old(self).tracker@, it__0.fin.dom() == old(self).tracker@.dom(),
+//@loop 0|                it__0.ks.no_duplicates(), self.tracker.sessions@ == it__0.fin,
+//@loop 0|                forall|k: u128| #[trigger] it__0.ks.contains(k) ==> old(self).tracker@.contains_key(k),
+//@loop 0|                forall|k: u128| #[trigger] old(self).tracker@.contains_key(k) && !it__0.ks.contains(k) ==>
+//@loop 0|                    it__0.fin[k] == old(self).tracker@[k] && (old(self).tracker@[k].delivered(command) || old(self).tracker@[k].receiver_gone()),
+//@loop 0|            ensures it__0.ks.len() == 0,
+//@loop 0|            decreases it__0.ks.len()
+//@afterloop 0| assert(self.tracker.sessions@ =~= old(self).tracker@);
 
 // [C16] peers that do not match the filter never reach `handle`; [C15] Shutdown / a closed command channel end the accept loop
 //@fn rodbus/src/tcp/server.rs | ServerTask<T>::run | tags=C15,C16 | r3 | attr=#[verifier::exec_allows_no_decreases_clause]
